@@ -225,9 +225,15 @@ def c17(kind, version, routes, raw, obs, info=None):
     uid, action, payload = call
     if _route_for(routes, action) is not None:
         return bad
-    import importlib
-    enums = importlib.import_module("ocpp.%s.enums" % ("v16" if version == "1.6" else "v201"))
-    known = isinstance(action, str) and action in {m.value for m in enums.Action}
+    # "the action belongs to the endpoint's OCPP version": it has a request schema there (independent of the
+    # Action enumeration the library itself consults)
+    import glob
+    import os
+    from harness import common as C
+    pkg = "v16" if version == "1.6" else "v201"
+    names = {os.path.basename(f)[:-5] for f in glob.glob(os.path.join(C.REPO, "ocpp", pkg, "schemas", "*.json"))}
+    reqs = {n for n in names if not n.endswith("Response")} if pkg == "v16" else {n[:-7] for n in names if n.endswith("Request")}
+    known = isinstance(action, str) and action in reqs
     want = "NotImplemented" if known else "NotSupported"
     w = sends(obs)
     tag = "%s:%s" % (version, jkey(action)[:60])
